@@ -7,6 +7,7 @@ import (
 	"go/token"
 	"go/types"
 	"net"
+	"strings"
 
 	"golang.org/x/tools/go/ssa"
 )
@@ -92,6 +93,9 @@ func (i *Interp) slogCapture(fr *frame, logger *value, ctx value, level int64, m
 	if h.t == nil {
 		i.rtPanic("nil slog.Handler")
 	}
+	if strings.Contains(typeString(h.t), "fox/internal/slogpretty") {
+		return // the pretty console handler's output is not modelled (stated stub)
+	}
 	if hasMethod(h.t, "CaptureLog") == nil {
 		i.unsupported("slog handler %s has no CaptureLog method (only capturing handlers are modelled)", typeString(h.t))
 	}
@@ -156,6 +160,29 @@ func init() {
 	ext["(*log/slog.Logger).Warn"] = logAt(4)
 	ext["(*log/slog.Logger).Info"] = logAt(0)
 	ext["(*log/slog.Logger).Debug"] = logAt(-4)
+
+	// ---- reflect: just enough for reflect.TypeOf(x).Comparable()
+	ext["reflect.TypeOf"] = func(fr *frame, a []value) value {
+		i := fr.i
+		f := a[0].(iface)
+		if f.t == nil {
+			return iface{}
+		}
+		cell := new(value)
+		*cell = &native{f.t}
+		return iface{t: types.NewPointer(i.namedType("reflect", "rtype")), v: cell}
+	}
+	ext["(*reflect.rtype).Comparable"] = func(fr *frame, a []value) value {
+		p := a[0].(*value)
+		if p == nil {
+			fr.i.rtPanic("invalid memory address or nil pointer dereference")
+		}
+		return types.Comparable((*p).(*native).v.(types.Type))
+	}
+	ext["(*reflect.rtype).String"] = func(fr *frame, a []value) value {
+		p := a[0].(*value)
+		return typeString((*p).(*native).v.(types.Type))
+	}
 
 	// ---- time: a stub clock -------------------------------------------------------------------
 	ext["time.Now"] = func(fr *frame, a []value) value {
